@@ -10,6 +10,7 @@ import (
 	"time"
 
 	"github.com/mandykoh/prism/zverif/vatomic"
+	"github.com/mandykoh/prism/zverif/vchan"
 	"github.com/mandykoh/prism/zverif/vrt"
 	"github.com/mandykoh/prism/zverif/vsync"
 )
@@ -36,6 +37,8 @@ func litmusTests() []litmus {
 	var p *int
 	var data, flag int
 	var flag32 uint32
+	var ch chan int
+	var sem chan struct{}
 	var mu, a, b vsync.Mutex
 	var once vsync.Once
 	var wg vsync.WaitGroup
@@ -155,6 +158,48 @@ func litmusTests() []litmus {
 				func() string { vatomic.StoreUint32(&flag32, 1); return "" },
 				func() string { _ = *vrt.R(&flag32); return "" }},
 			wantKind: "race"},
+		{name: "hand-over through an unbuffered channel", reset: func() { data = 0; ch = make(chan int) },
+			threads: []func() string{
+				func() string { *vrt.W(&data) = 5; vchan.Send(ch, 1); return "" },
+				func() string { vchan.Recv1(ch); return str(*vrt.R(&data)) }},
+			wantKind: "", wantAll: true, want: []string{"", "5"}},
+		{name: "buffered channel used as a semaphore", reset: func() { c = 0; sem = make(chan struct{}, 1) },
+			threads: func() []func() string {
+				f := func() string { vchan.Send(sem, struct{}{}); *vrt.RW(&c) += 1; vchan.Recv1(sem); return "" }
+				return []func() string{f, f}
+			}(), wantKind: "", wantAll: true},
+		{name: "producer closes, consumer ranges", reset: func() { ch = make(chan int, 1) },
+			threads: []func() string{
+				func() string {
+					for i := 1; i <= 3; i++ {
+						vchan.Send(ch, i)
+					}
+					vchan.Close(ch)
+					return ""
+				},
+				func() string {
+					sum := 0
+					for {
+						v, ok := vchan.Recv2(ch)
+						if !ok {
+							break
+						}
+						sum += v
+					}
+					return str(sum)
+				}},
+			wantKind: "", wantAll: true, want: []string{"", "6"}},
+		{name: "completion token taken by the wrong caller", reset: func() { data = 0; ch = make(chan int, 2) },
+			threads: []func() string{
+				func() string { *vrt.W(&data) = 1; vchan.Send(ch, 1); return "" },
+				func() string { vchan.Send(ch, 2); return "" },
+				func() string { vchan.Recv1(ch); _ = *vrt.R(&data); return "" }},
+			wantKind: "race", want: []string{"", "", ""}, cachedOnly: true},
+		{name: "receive with nobody ever sending", reset: func() { ch = make(chan int) },
+			threads: []func() string{
+				func() string { vchan.Recv1(ch); return "" },
+				func() string { return "" }},
+			wantKind: "failure", minPreemp: 0, want: []string{"", ""}},
 		{name: "result aliasing a pooled buffer", reset: func() { pool = &vsync.Pool{New: func() any { return new([1]int) }} },
 			threads: func() []func() string {
 				f := func(v int) func() string {
